@@ -70,6 +70,14 @@ pub fn run(ctx: &Ctx, rep: &mut Report) {
                 sys.entries.push(Entry::simple(k, rng.range(0, nid - 1) as i16, rng.range(0, nid - 1) as i16, rng.range(0, 4000) as i16, rng.pick(&pool)));
             }
         }
+        // katakana words whose headword has another byte length than the index key
+        for (key, head) in [("コン", "コーン"), ("マウ", "マ"), ("ピュ", "ピュー")] {
+            if rng.chance(1, 2) {
+                let mut e = Entry::simple(key, rng.range(0, nid - 1) as i16, rng.range(0, nid - 1) as i16, rng.range(0, 3000) as i16, rng.pick(&pool));
+                e.headword = head.to_string();
+                sys.entries.push(e);
+            }
+        }
         // a numeral-POS compound with declared A/B units (a merged numeral must not inherit them)
         if rng.chance(1, 2) {
             let base = sys.entries.len();
@@ -138,6 +146,12 @@ pub fn run(ctx: &Ctx, rep: &mut Report) {
             };
             let (ow, ob) = match (rw, rb) {
                 (Ok(Ok(a)), Ok(Ok(b))) => (a, b),
+                (Err(p), Ok(Ok(b))) => {
+                    // the same text analyses fine without the plugins: the rewritten path can not be read back
+                    rep.violation("rewritten_path_unreadable", &p.site, &format!("analysis or an accessor panics only with the path-rewrite plugins: {}", p.msg), "",
+                        json!({"world_index": wi, "text_index": ti, "text": text, "mode": mode_name(mode), "without_plugins": b.iter().map(|o| json!([o.begin, o.end, o.surface])).collect::<Vec<_>>(), "world": world.describe(true)}));
+                    continue;
+                }
                 (Err(p), _) | (_, Err(p)) => {
                     rep.skipped_panic(&p, json!({"world_index": wi, "text": text}));
                     continue;
